@@ -111,6 +111,7 @@ class CCtx:
         self.post = []
         self.n = 0
         self.lang = lang
+        self.mut_arrays = []
 
     def _name(self, p):
         self.n += 1
@@ -119,6 +120,8 @@ class CCtx:
     def array(self, elem, items, const=True):
         name = self._name("a")
         self.pre.append("%s %s[%d] = { %s };" % (elem, name, max(1, len(items)), ", ".join(items) if items else "0"))
+        if not const:
+            self.mut_arrays.append((name, len(items)))
         return name
 
     def owned_array(self, elem, items, elem_size):
@@ -368,7 +371,12 @@ def rust_method(m):
         params = ["_src: &'a Op"] + params
     dumps = " s.push(';'); ".join(rust_dump_expr(t, "x%d" % j) for j, t in enumerate(m["params"]))
     if k == "P":
-        return "pub fn %s%s(%s) { log_call(%d, |s| { %s }); }" % (m["name"], gen, ", ".join(params), i, dumps)
+        flips = ""
+        for j, t in enumerate(m["params"]):
+            if isinstance(t, A.Slice) and t.kind == "mut":
+                f = "!*e" if t.elem.name == "bool" else ("-*e" if t.elem.isfloat else "e.wrapping_add(1)")
+                flips += " if let Some(e) = x%d.first_mut() { *e = %s; }" % (j, f)
+        return "pub fn %s%s(%s) { log_call(%d, |s| { %s });%s }" % (m["name"], gen, ", ".join(params), i, dumps, flips)
     if k in ("R", "PR"):
         vals = cases_for(m) if k == "R" else None
         rv = vals if k == "R" else (lambda v: v[:2] + v[-2:])(m["ret"].values())
@@ -499,6 +507,34 @@ def build_crate(name, src, tag=""):
 # C driver
 
 
+def _mut_dumps(m, ctx):
+    """statements printing every caller-owned mutable array after the call (Rust flips the first element of each &mut slice)"""
+    out = []
+    sizes = [t.elem.bits // 8 for t in m["params"] if isinstance(t, A.Slice) and t.kind == "mut"]
+    for (name, n), sz in zip(ctx.mut_arrays, sizes):
+        out.append('printf(" m"); dump_slice((const unsigned char*)%s, %d, %d);' % (name, n, sz))
+    return out
+
+
+def _mut_expected(m, case):
+    out = ""
+    for t, v in zip(m["params"], case):
+        if isinstance(t, A.Slice) and t.kind == "mut" and v != ("null",):
+            vals = list(v)
+            if vals:
+                e = t.elem
+                x = vals[0]
+                if e.name == "bool":
+                    x = 1 - x
+                elif e.isfloat:
+                    x = x ^ (1 << (e.bits - 1))
+                else:
+                    x = x + 1
+                vals[0] = x
+            out += " m[%d:%s]" % (len(vals), "".join(t.elem.le_bytes(q).hex() for q in vals))
+    return out
+
+
 def c_case(m, j, case):
     """C statements of one case; prints: `<K> <i> <j> | <C-side dump> | <rust log>`"""
     ctx = CCtx("c")
@@ -510,6 +546,7 @@ def c_case(m, j, case):
         args = [t.c_lit(v, ctx) for t, v in zip(m["params"], case)]
         body.append("%s(%s);" % (fn, ", ".join(args)))
         body.append('printf("P %d %d | -");' % (i, j))
+        body += _mut_dumps(m, ctx)
     elif k in ("R", "PR"):
         args = []
         if m["ret"].lifetime:
@@ -572,7 +609,7 @@ def expected_line(m, j, case):
     """the oracle: what the driver must print for this case (computed from Rust source-level meaning only)"""
     i, k = m["i"], m["kind"]
     if k == "P":
-        return "P %d %d | - | CALL %d:%s~" % (i, j, i, ";".join(t.dump(v) for t, v in zip(m["params"], case)))
+        return "P %d %d | -%s | CALL %d:%s~" % (i, j, _mut_expected(m, case), i, ";".join(t.dump(v) for t, v in zip(m["params"], case)))
     if k == "R":
         return "R %d %d | %s | CALL %d:~" % (i, j, m["ret"].dump(case), i)
     if k == "PR":
@@ -710,6 +747,7 @@ def cpp_case(types, m, j, case):
         else:
             body.append("%s(%s);" % (fn, ", ".join(args)))
             body.append('printf("P %d %d | -");' % (i, j))
+            body += _mut_dumps(m, ctx)
     elif k in ("R", "PR"):
         args = []
         if m["ret"].lifetime:
